@@ -392,7 +392,7 @@ func checkBilevel(l *mc.Local, im *bimg, class string, extras bool) {
 // ------------------------------------------------------------------ (a) every tiny bilevel image
 
 func runTiny() {
-	maxPix := chk.Pick(12, 16)
+	maxPix := chk.Pick(15, 16)
 	type chunk struct{ w, h, from, to int }
 	var chunks []chunk
 	total := 0
